@@ -8,6 +8,7 @@
   the harness (corpus/C17/witnesses.ops).
 -/
 import Relic.Proofs.ZipCodec
+import Relic.Proofs.ZipAgree
 import Relic.Spec.Zip
 namespace Relic.Props.C17
 open Relic Relic.Zip
@@ -122,6 +123,11 @@ def zOne24 : Bytes := [80, 75, 3, 4, 45, 0, 8, 0, 0, 0, 0, 0, 0, 0, 0, 0, 0, 0, 
 /-- member `a` = "x" whose central header offset is 0xffffffff with an 8-byte ZIP64 extra holding only the offset -/
 def zPartial : Bytes := [80, 75, 3, 4, 20, 0, 0, 0, 0, 0, 0, 0, 0, 0, 131, 22, 220, 140, 1, 0, 0, 0, 1, 0, 0, 0, 1, 0, 0, 0, 97, 120, 80, 75, 1, 2, 20, 0, 45, 0, 0, 0, 0, 0, 0, 0, 0, 0, 131, 22, 220, 140, 1, 0, 0, 0, 1, 0, 0, 0, 1, 0, 12, 0, 0, 0, 0, 0, 0, 0, 0, 0, 0, 0, 255, 255, 255, 255, 97, 1, 0, 8, 0, 0, 0, 0, 0, 0, 0, 0, 0, 80, 75, 5, 6, 0, 0, 0, 0, 1, 0, 1, 0, 59, 0, 0, 0, 32, 0, 0, 0, 0, 0]
 
+/-- member `a` = "x" with a 16-byte descriptor followed by one stray byte before the directory -/
+def zGap : Bytes := [80, 75, 3, 4, 20, 0, 8, 0, 0, 0, 0, 0, 0, 0, 0, 0, 0, 0, 0, 0, 0, 0, 0, 0, 0, 0, 1, 0, 0, 0, 97, 120, 80, 75, 7, 8, 131, 22, 220, 140, 1, 0, 0, 0, 1, 0, 0, 0, 0, 80, 75, 1, 2, 20, 0, 20, 0, 8, 0, 0, 0, 0, 0, 0, 0, 131, 22, 220, 140, 1, 0, 0, 0, 1, 0, 0, 0, 1, 0, 0, 0, 0, 0, 0, 0, 0, 0, 0, 0, 0, 0, 0, 0, 0, 0, 97, 80, 75, 5, 6, 0, 0, 0, 0, 1, 0, 1, 0, 47, 0, 0, 0, 49, 0, 0, 0, 0, 0]
+/-- deflated member `a` whose uncompressed size is exactly 0xffffffff (ZIP64 extra), 16-byte descriptor -/
+def zMax16 : Bytes := [80, 75, 3, 4, 20, 0, 8, 0, 8, 0, 0, 0, 0, 0, 0, 0, 0, 0, 0, 0, 0, 0, 0, 0, 0, 0, 1, 0, 0, 0, 97, 120, 80, 75, 7, 8, 131, 22, 220, 140, 1, 0, 0, 0, 255, 255, 255, 255, 80, 75, 1, 2, 20, 0, 45, 0, 8, 0, 8, 0, 0, 0, 0, 0, 131, 22, 220, 140, 1, 0, 0, 0, 255, 255, 255, 255, 1, 0, 12, 0, 0, 0, 0, 0, 0, 0, 0, 0, 0, 0, 0, 0, 0, 0, 97, 1, 0, 8, 0, 255, 255, 255, 255, 0, 0, 0, 0, 80, 75, 5, 6, 0, 0, 0, 0, 1, 0, 1, 0, 59, 0, 0, 0, 48, 0, 0, 0, 0, 0]
+
 def rd (z : Bytes) : Rd := ⟨z, false, 0⟩
 
 /-- "the result is `ok a` and `p a`" as a Boolean, so that closed instances are decided by evaluation -/
@@ -176,17 +182,229 @@ def ReadsAsSpec (z : Bytes) : Prop :=
 /-- the full statement of the read half of C17 (FALSE on the unchanged tree) -/
 def read_agrees_spec_full : Prop := ∀ z, SpecZip.valid z → ReadsAsSpec z
 
-/-- the clauses under which it is claimed -/
+/-- the clauses under which the read half was first claimed (F7c, F7d, F7e, F7a).  They are NOT
+    sufficient: `readable_v1_insufficient` below. -/
+def relicReadableV1 (z : Bytes) : Prop :=
+  ∃ a, SpecZip.parse z = some a ∧ SpecZip.noComment a z = true ∧ SpecZip.descSigned a = true ∧
+    SpecZip.zip64Fixed a = true ∧
+    (a.members.all fun m => !(m.entry.usize == 0 && SpecZip.trueWidth a m == some 24)) = true
+
+/-- the clauses under which it is claimed and proved: no comment and ≥ 42 bytes (F7c), signed descriptors
+    (F7d), fixed-layout ZIP64 markers (F7e), for every member with a descriptor the width inference of
+    `readDataDesc` is right (`widthOK`: the descriptor ends where the next structure starts; a 16-byte
+    descriptor does not meet the size 0xffffffff; a 24-byte one has `usize ≥ 0xffffffff` or the high word
+    of `csize` different from `usize` — F7a is the instance `csize < 2^32`, `usize = 0`), and the file
+    size is an `int64` (the model's domain).  All decidable. -/
 def relicReadable (z : Bytes) : Prop :=
   ∃ a, SpecZip.parse z = some a ∧ SpecZip.noComment a z = true ∧ SpecZip.descSigned a = true ∧
-    SpecZip.zip64Fixed a = true ∧ (a.members.all fun m => !(m.entry.usize == 0 && SpecZip.trueWidth a m == some 24)) = true
+    SpecZip.zip64Fixed a = true ∧ (a.members.all (widthOK a)) = true ∧ z.length < 2 ^ 63
 
-/-- NOT PROVED (kept as a statement): the read half under `relicReadable`.  Proved below: the
-    width decision (`desc_width_inference`), the ZIP64 decision, and the statement on concrete
-    archives; checked on every run by differential execution (relic = model, relic = archive/zip on
-    every generated archive `Spec.Zip` calls valid): everything else, including the agreement of the
-    two central-entry parsers. -/
-def read_agrees_spec_readable : Prop := ∀ z, SpecZip.valid z → relicReadable z → ReadsAsSpec z
+/-! ### agreement of the two central-directory parsers (Relic/Proofs/ZipAgree.lean) -/
+
+/-- **central_entry_agreement.** Where the specification reads a central record at `at_` whose ZIP64
+    markers obey the fixed-layout clause (F7e), zipslicer's per-entry step on the same bytes yields the same
+    fields (creator, reader, flags, method, time, date, CRC, both sizes and the header offset with the ZIP64
+    values resolved, name, extra, comment, attributes, the raw record) and the same next position. -/
+theorem central_entry_agreement (z : Bytes) (at_ lim : Nat) (en : SpecZip.Entry)
+    (h : SpecZip.entryAt z at_ lim = some en) (hf : fixedNeed en.need = true) :
+    readEntry (z.drop at_) = .ok (fileOf z at_ en, z.drop (at_ + en.len)) :=
+  readEntry_of_entryAt h hf
+
+/-- **central_entry_spec_then_model.** Without the layout clause: a record the specification reads is
+    never a panic for zipslicer; it is read up to the same position, or refused as "missingzip64". -/
+theorem central_entry_spec_then_model (z : Bytes) (at_ lim : Nat) (en : SpecZip.Entry)
+    (h : SpecZip.entryAt z at_ lim = some en) :
+    (∃ f, readEntry (z.drop at_) = .ok (f, z.drop (at_ + en.len))) ∨
+    readEntry (z.drop at_) = .err "missingzip64" := by
+  obtain ⟨h1, h2, _, h4, r, _, rfl⟩ := entryAt_some h
+  have e : at_ + (specEntry z at_ r).len =
+      at_ + 46 + fld (z.drop at_) 28 2 + fld (z.drop at_) 30 2 + fld (z.drop at_) 32 2 := by
+    simp only [specEntry]; omega
+  rw [readEntry_eq z at_ (by omega), e]
+  simp only
+  split
+  · exact Or.inr rfl
+  · exact Or.inl ⟨_, rfl⟩
+
+/-- **central_entry_model_then_spec.** The converse: a record zipslicer reads (central signature present,
+    record inside `[at_, lim)`) is read by the specification as well, with the same fields under the layout
+    clause — except when only the uncompressed size carries the 0xffffffff marker and there is no ZIP64
+    field with an 8-byte payload: zipslicer then keeps 0xffffffff as the size, the specification refuses. -/
+theorem central_entry_model_then_spec (z : Bytes) (at_ lim : Nat) (f : File) (rest : Bytes)
+    (hr : readEntry (z.drop at_) = .ok (f, rest)) (hs : SpecZip.hasSig z at_ 0x50 0x4b 0x01 0x02 = true)
+    (hb : at_ + 46 + fld (z.drop at_) 28 2 + fld (z.drop at_) 30 2 + fld (z.drop at_) 32 2 ≤ lim)
+    (hz : lim ≤ z.length) :
+    (∃ en, SpecZip.entryAt z at_ lim = some en ∧ rest = z.drop (at_ + en.len) ∧
+      (fixedNeed en.need = true → f = fileOf z at_ en)) ∨
+    (SpecZip.entryAt z at_ lim = none ∧ fld (z.drop at_) 24 4 = 0xffffffff ∧ fld (z.drop at_) 20 4 ≠ 0xffffffff ∧
+      fld (z.drop at_) 42 4 ≠ 0xffffffff ∧ f.usize = 0xffffffff ∧
+      ∀ p, SpecZip.zip64Field (fld (z.drop at_) 30 2)
+          ((z.drop (at_ + 46 + fld (z.drop at_) 28 2)).take (fld (z.drop at_) 30 2)) = some p → p.length < 8) :=
+  entryAt_of_readEntry hr hs hb hz
+
+/-- a central record whose compressed size alone is marked, with a 16-byte ZIP64 payload (7, 9) -/
+def cdSwap : Bytes := [80, 75, 1, 2, 20, 0, 45, 0, 0, 0, 0, 0, 0, 0, 0, 0, 0, 0, 0, 0, 255, 255, 255, 255, 5, 0, 0, 0, 1, 0, 20, 0, 0, 0, 0, 0, 0, 0, 0, 0, 0, 0, 0, 0, 0, 0, 97, 1, 0, 16, 0, 7, 0, 0, 0, 0, 0, 0, 0, 9, 0, 0, 0, 0, 0, 0, 0]
+
+/-- **f7e_fixed_positions_misread.** The layout clause is necessary for *agreement*, not only for
+    acceptance: on `cdSwap` both parsers succeed and differ (the specification reads the compressed size 7
+    in order, zipslicer reads 9 at the fixed position 8); on `zPartial` (`f7e_partial_zip64_refused`)
+    zipslicer refuses. -/
+theorem f7e_fixed_positions_misread :
+    someAnd (SpecZip.entryAt cdSwap 0 67) (fun en => decide (en.csize = 7) && !fixedNeed en.need) = true ∧
+    okAnd (readEntry cdSwap) (fun p => decide (p.1.csize = 9) && decide (p.2 = [])) = true := by decide
+
+/-- **central_directory_agreement.** Lifted to the directory: where the specification reads `count`
+    records filling `[at_, lim)`, all obeying the layout clause, and `lim` does not start another central
+    record, zipslicer's loop (any fuel above `count`) returns the same records in order and stops at `lim`. -/
+theorem central_directory_agreement (z : Bytes) (count at_ lim fuel : Nat) (es : List SpecZip.Entry)
+    (hl : lim + 4 ≤ z.length) (hs : fld (z.drop lim) 0 4 ≠ sigDir)
+    (h : SpecZip.entries z count at_ lim = some es) (hf : (es.all fun e => fixedNeed e.need) = true)
+    (hfuel : count < fuel) :
+    readEntries fuel (z.drop at_) = .ok (filesOf z at_ es, z.drop lim) :=
+  readEntries_of_entries hl hs count at_ es fuel h hf hfuel
+
+/-- **find_directory_agrees.** On an archive without comment, at least 42 bytes long (and addressable by
+    an `int64`), the fixed 42-byte tail window of `FindDirectory` finds the directory offset the
+    specification's end-record search (including the ZIP64 locator rule) finds. -/
+theorem find_directory_agrees (z : Bytes) (en : SpecZip.Ends) (h : SpecZip.ends z = some en)
+    (hc : en.comment = []) (h42 : 42 ≤ z.length) (h63 : z.length < 2 ^ 63) :
+    findDirectory (rd z) = .ok en.cdOff :=
+  findDirectory_of_ends h hc h42 h63
+
+/-- the `int64` clause is necessary in the model: beyond it `ReadAt` gets a negative offset -/
+theorem read_beyond_int64_refused (z : Bytes) (h : 2 ^ 63 + 42 ≤ z.length) : read (rd z) = .err "io" := by
+  have hf : findDirectory (rd z) = .err "io" := by
+    unfold findDirectory rd
+    simp only
+    rw [if_neg (by omega)]
+    unfold Rd.readAt
+    rw [if_pos (by omega)]
+  unfold Zip.read
+  rw [hf]
+
+theorem filesOf_rows (z : Bytes) : ∀ (es : List SpecZip.Entry) (at_ : Nat),
+    (filesOf z at_ es).map (fun f => (⟨f.name, f.method, f.flags, f.crc, f.csize, f.usize, f.offset, f.extra, f.comment⟩ : Row)) =
+    es.map (fun e => (⟨e.name, e.method, e.flags, e.crc, e.csize, e.usize, e.hoff, e.extra, e.comment⟩ : Row)) := by
+  intro es
+  induction es with
+  | nil => intro _; rfl
+  | cons e es ih => intro at_; simp [filesOf, fileOf, ih]
+
+/-- **read_agrees_spec_partial** (the central-directory view of `read_agrees_spec_readable`).  For every
+    valid archive under `relicReadable`: `Read` succeeds, finds the directory where the specification
+    finds it, and its member table (name, method, flags, CRC, sizes and header offset with ZIP64 values
+    resolved, extra, comment — directory order) is the specification's.  (The extents are added by
+    `read_agrees_spec_readable`; this view does not use the descriptor clauses.) -/
+theorem read_agrees_spec_partial (z : Bytes) (_hv : SpecZip.valid z) (hr : relicReadable z) :
+    ∃ a d, SpecZip.parse z = some a ∧ read (rd z) = .ok d ∧ modelTable d = specTable a ∧
+      d.dirLoc = a.ends.cdOff ∧ d.size = z.length := by
+  obtain ⟨a, ha, hnc, _, hfix, _, h63⟩ := hr
+  simp only [SpecZip.noComment, Bool.and_eq_true, List.isEmpty_iff, decide_eq_true_eq] at hnc
+  have hfix' : (a.members.all fun m => fixedNeed m.entry.need) = true := by
+    simpa [SpecZip.zip64Fixed, fixedNeed] using hfix
+  obtain ⟨d, hd, hfiles, hloc, hsize⟩ := read_of_parse ha hnc.1 hnc.2 h63 hfix'
+  refine ⟨a, d, ha, hd, ?_, hloc, hsize⟩
+  unfold modelTable specTable
+  rw [hfiles, filesOf_rows, List.map_map]
+  rfl
+
+theorem modelExtents_eq (z : Bytes) (d : Directory) : modelExtents z d = d.files.map (modelExtent z) := rfl
+theorem specExtents_eq (a : SpecZip.Archive) : specExtents a = a.members.map (specExtent a) := rfl
+
+/-- **member_extents_agree.** The local-header/descriptor half: for an archive the specification parses
+    (size an `int64`, descriptors signed, widths inferable), the data offset and total extent
+    `GetTotalSize` assigns to each member of the directory are the specification's (contiguous reading). -/
+theorem member_extents_agree (z : Bytes) (a : SpecZip.Archive) (at_ : Nat) (h : SpecZip.parse z = some a)
+    (h63 : z.length < 2 ^ 63) (hs : SpecZip.descSigned a = true) (hw : (a.members.all (widthOK a)) = true) :
+    (filesOf z at_ (a.members.map (·.entry))).map (modelExtent z) = a.members.map (specExtent a) :=
+  extents_of_parse h h63 hs hw at_
+
+/-- **read_agrees_spec_readable.** The read half of C17 under `relicReadable`: every valid archive that
+    satisfies the clauses is read by relic, with the member table and the member extents the
+    specification assigns. -/
+theorem read_agrees_spec_readable : ∀ z, SpecZip.valid z → relicReadable z → ReadsAsSpec z := by
+  intro z _ hr
+  obtain ⟨a, ha, hnc, hsg, hfix, hw, h63⟩ := hr
+  simp only [SpecZip.noComment, Bool.and_eq_true, List.isEmpty_iff, decide_eq_true_eq] at hnc
+  have hfix' : (a.members.all fun m => fixedNeed m.entry.need) = true := by
+    simpa [SpecZip.zip64Fixed, fixedNeed] using hfix
+  obtain ⟨d, hd, hfiles, _, _⟩ := read_of_parse ha hnc.1 hnc.2 h63 hfix'
+  refine ⟨a, d, ha, hd, ?_, ?_⟩
+  · unfold modelTable specTable
+    rw [hfiles, filesOf_rows, List.map_map]
+    rfl
+  · rw [modelExtents_eq, specExtents_eq, hfiles]
+    exact extents_of_parse ha h63 hsg hw _
+
+/-- **readable_v1_insufficient.** The clauses first written down do not suffice (so `widthOK` is needed):
+    `zGap` (a stray byte after a 16-byte descriptor: the specification cannot tell where the member ends,
+    relic says 48 bytes) and `zMax16` (uncompressed size exactly 0xffffffff with a 16-byte descriptor:
+    `readDataDesc` takes it for a 24-byte one and fails with "baddesc") are valid, satisfy them, and are
+    not read as the specification reads them. -/
+theorem readable_v1_insufficient :
+    (SpecZip.valid zGap ∧ relicReadableV1 zGap ∧ ¬ ReadsAsSpec zGap) ∧
+    (SpecZip.valid zMax16 ∧ relicReadableV1 zMax16 ∧ ¬ ReadsAsSpec zMax16) := by
+  have v1 : ∀ z, someAnd (SpecZip.parse z) (fun a => SpecZip.noComment a z && SpecZip.descSigned a &&
+      SpecZip.zip64Fixed a && (a.members.all fun m => !(m.entry.usize == 0 && SpecZip.trueWidth a m == some 24))) = true →
+      relicReadableV1 z := by
+    intro z h
+    obtain ⟨a, ha, hr⟩ := someAnd_elim h
+    simp only [Bool.and_eq_true] at hr
+    exact ⟨a, ha, hr.1.1.1, hr.1.1.2, hr.1.2, hr.2⟩
+  have no : ∀ z, okAnd (read (rd z)) (fun d => someAnd (SpecZip.parse z) fun a =>
+      !decide (modelExtents z d = specExtents a)) = true → ¬ ReadsAsSpec z := by
+    intro z h ⟨a, d, ha, hd, _, he⟩
+    obtain ⟨d', hd', hq⟩ := okAnd_elim h
+    obtain ⟨a', ha', hn⟩ := someAnd_elim hq
+    rw [hd] at hd'; cases hd'
+    rw [ha] at ha'; cases ha'
+    simp [he] at hn
+  exact ⟨⟨by decide, v1 _ (by decide), no _ (by decide)⟩, ⟨by decide, v1 _ (by decide), no _ (by decide)⟩⟩
+
+/-- **f7f_max16_refused.** The member of `zMax16` cannot be located: "baddesc". -/
+theorem f7f_max16_refused :
+    SpecZip.valid zMax16 ∧
+    okAnd (read (rd zMax16)) (fun d => decide (d.files.map (fun f =>
+      match getTotalSize (rd zMax16) f with | .err e => e | _ => "-") = ["baddesc"])) = true ∧
+    someAnd (SpecZip.parse zMax16) (fun a => decide (specExtents a = [some (31, 48)])) = true := by decide
+
+/-- **width_ok_necessary.** Each conjunct of `widthOK` fails on a witness that relic misreads:
+    `zGap` (no located end), `zMax16` (16 bytes with 0xffffffff), `zEmpty24` (24 bytes not recognised, F7a);
+    it holds on `zOne24`. -/
+theorem width_ok_necessary :
+    someAnd (SpecZip.parse zGap) (fun a => !a.members.all (widthOK a)) = true ∧
+    someAnd (SpecZip.parse zMax16) (fun a => !a.members.all (widthOK a)) = true ∧
+    someAnd (SpecZip.parse zEmpty24) (fun a => !a.members.all (widthOK a)) = true ∧
+    someAnd (SpecZip.parse zOne24) (fun a => a.members.all (widthOK a)) = true := by decide
+
+/-- **desc_width_inference_wide.** The 24-byte clause of `widthOK` is exactly the inference: on the first
+    16 bytes of a true 24-byte descriptor `readDataDesc` says "64-bit" iff `usize ≥ 0xffffffff` or the high
+    word of `csize` differs from `usize` (mod 2^32) — for every CRC and all sizes. -/
+theorem desc_width_inference_wide (crc cs us : Nat) :
+    inferWide cs us ((descBytes true crc cs us).take 16) = true ↔
+      (us ≥ 0xffffffff ∨ cs / 2 ^ 32 % 2 ^ 32 ≠ us % 2 ^ 32) := by
+  have l4 : ∀ n, (leBytes 4 n).length = 4 := fun n => leBytes_length 4 n
+  have e8 : leBytes 8 cs = leBytes 4 cs ++ leBytes 4 (cs / 256 ^ 4) := leBytes_add 4 4 cs
+  have t : (descBytes true crc cs us).take 16 =
+      leBytes 4 sigDesc ++ (leBytes 4 crc ++ (leBytes 4 cs ++ leBytes 4 (cs / 256 ^ 4))) := by
+    have : descBytes true crc cs us =
+        (leBytes 4 sigDesc ++ (leBytes 4 crc ++ (leBytes 4 cs ++ leBytes 4 (cs / 256 ^ 4)))) ++ leBytes 8 us := by
+      simp [descBytes, e8]
+    rw [this]
+    exact List.take_left' (by simp)
+  have f8 : fld (leBytes 4 sigDesc ++ (leBytes 4 crc ++ (leBytes 4 cs ++ leBytes 4 (cs / 256 ^ 4)))) 8 4 =
+      cs % 256 ^ 4 := by
+    rw [show (8 : Nat) = 4 + 4 from rfl, fld_skip _ _ 4 4 4 (l4 _), show (4 : Nat) = 4 + 0 from rfl,
+      fld_skip _ _ 4 0 (4 + 0) (l4 _), fld_head _ _ _ (l4 _), leVal_leBytes]
+  have f12 : fld (leBytes 4 sigDesc ++ (leBytes 4 crc ++ (leBytes 4 cs ++ leBytes 4 (cs / 256 ^ 4)))) 12 4 =
+      cs / 256 ^ 4 % 256 ^ 4 := by
+    rw [show (12 : Nat) = 4 + 8 from rfl, fld_skip _ _ 4 8 4 (l4 _), show (8 : Nat) = 4 + 4 from rfl,
+      fld_skip _ _ 4 4 4 (l4 _), show (4 : Nat) = 4 + 0 from rfl, fld_skip _ _ 4 0 (4 + 0) (l4 _),
+      fld_all _ _ (l4 _), leVal_leBytes]
+  rw [t]
+  unfold inferWide
+  rw [f8, f12]
+  simp [u32Max]
 
 /-- **f7c_comment_refused.** A valid archive with a comment is not found. -/
 theorem f7c_comment_refused :
@@ -255,7 +473,8 @@ def write_read_roundtrip_full : Prop :=
     rewriteKeep z mask force = .ok out → SpecZip.valid out
 
 /-- what remains to be proved (NOT PROVED; checked dynamically on every run, rounds 2 and 3):
-    the same under `relicReadable` (which excludes the empty member with a 24-byte descriptor). -/
+    the same under `relicReadable` (which excludes the empty member with a 24-byte descriptor); the read
+    half it would build on is `read_agrees_spec_readable` (proved). -/
 def write_read_roundtrip_readable : Prop :=
   ∀ z a mask force out, SpecZip.parse z = some a → contigFrom a 0 a.members = true → relicReadable z →
     rewriteKeep z mask force = .ok out → SpecZip.valid out
@@ -329,11 +548,11 @@ example : ReadsAsSpec zPlain := by
   exact ⟨a, d, ha, hd, hr.1, hr.2⟩
 example : relicReadable zOne24 := by
   have h : someAnd (SpecZip.parse zOne24) (fun a => SpecZip.noComment a zOne24 && SpecZip.descSigned a &&
-      SpecZip.zip64Fixed a && (a.members.all fun m => !(m.entry.usize == 0 && SpecZip.trueWidth a m == some 24))) = true := by
+      SpecZip.zip64Fixed a && a.members.all (widthOK a)) = true := by
     decide
   obtain ⟨a, ha, hr⟩ := someAnd_elim h
   simp only [Bool.and_eq_true] at hr
-  exact ⟨a, ha, hr.1.1.1, hr.1.1.2, hr.1.2, hr.2⟩
+  exact ⟨a, ha, hr.1.1.1, hr.1.1.2, hr.1.2, hr.2, by decide⟩
 example : needZip64 0xffff 0 0 false 20 = true ∧ needZip64 0xfffe 0xfffffffe 0xfffffffe false 20 = false := by decide
 
 end Relic.Props.C17
